@@ -104,11 +104,20 @@ def run_tasks(tasks, overlay=None, jobs=None):
     pending = list(tasks)
     running = {}          # conn -> (proc, task, start)
     from multiprocessing.connection import wait as mpwait
+    import atexit
+
+    def _reap():
+        for pr_, t_, st_ in list(running.values()):
+            try:
+                pr_.kill()
+            except Exception:
+                pass
+    atexit.register(_reap)
     while pending or running:
         while pending and len(running) < jobs:
             t = pending.pop(0)
             rc, wc = ctx.Pipe(duplex=False)
-            pr = ctx.Process(target=_child, args=(wc, overlay, t.target, t.kw, t.name, t.timeout, getattr(t, 'env', None)), daemon=True)
+            pr = ctx.Process(target=_child, args=(wc, overlay, t.target, t.kw, t.name, t.timeout, getattr(t, 'env', None)), daemon=False)     # not daemonic: the code under test starts processes of its own (DFE cache generation)
             pr.start()
             wc.close()
             running[rc] = (pr, t, time.time())
